@@ -32,8 +32,10 @@ ASSUMPTIONS = ["DUMP -all writes every stored reactant with >=14 significant dig
                "surfaces (known finding: diffuse-layer water created at first contact; they are defined with -equilibrate instead), two SOLID_SOLUTIONS blocks of one history "
                "sharing a solid-solution name (known finding: the second is solved with the phases of the first), steps with a solid "
                "solution that converge only in the engine's retry 'Adding inequality to make concentrations greater than zero' "
-               "(known finding: mass leaks; recognised by that warning text after the run), the default Newton step sizes (known finding: inventories rounded after 1e6..1e7 mol Newton "
-               "excursions; every input sets KNOBS -step_size 10 -pe_step_size 5), O2(g) as pure phase together with O2(g) in the gas phase (known finding: Ba deficit), "
+               "(known finding: mass leaks; recognised by that warning text after the run), element discrepancies <= 1.5e-8 mol that close when the case is re-run with other KNOBS "
+               "-step_size/-pe_step_size (known finding: inventories rounded after 1e5..1e7 mol Newton excursions; inputs use "
+               "-step_size 10 -pe_step_size 5), MIX with a negative fraction removing > 30 % of the water (known finding: intensive "
+               "properties weighted wrongly, NaN results), O2(g) as pure phase together with O2(g) in the gas phase (known finding: Ba deficit), "
                "KINETICS -cvode true (the engine does "
                "not return when a CVODE sub-step cannot be converged: every kinetic block is integrated with Runge-Kutta), kinetic "
                "uptake of substances not abundantly present in every solution (engine does not return)"]
@@ -124,7 +126,8 @@ def check_step(info, D0, D1, phases):
         if not (err <= RTOL * s):
             raise Violation("element_balance", "cell %d element %s: after %.15g, expected %.15g (before %.15g + reaction %.6g), "
                             "difference %.3e = %.3e of the system inventory %.6g" %
-                            (info["cell"], e, a, x, before.get(e, 0.0), x - before.get(e, 0.0), a - x, err / s, s))
+                            (info["cell"], e, a, x, before.get(e, 0.0), x - before.get(e, 0.0), a - x, err / s, s),
+                            {"abs": err, "cell": info["cell"]})
         if s > 1e-12:
             worst = max(worst, err / s)
     zs = max(zscale, FLOOR)
@@ -220,7 +223,56 @@ def run_case(case, ctx, punch=None, on_step=None):
         I.close()
 
 
+class _Quiet(object):
+    """ctx stand-in for the second run of a case: nothing is counted twice"""
+
+    def __init__(self, ctx):
+        self._ctx = ctx
+
+    def event(self, *a, **k):
+        pass
+
+    def scratch_dir(self):
+        return self._ctx.scratch_dir()
+
+
+EXCURSION_ABS = 1.5e-8      # unit of rounding of 1e8 mol, the largest pure-phase delta reset() lets through
+ALT_STEP_SIZES = ([100, 10], [3, 2])
+PATH_EXCUSE = "excluded_trigger:deficit_below_1.5e-8mol_that_closes_with_another_newton_step_size"
+
+
 def check_case(case, ctx):
+    """Known finding (C02, replays/C02/known/*newton-excursion.json): one Newton step can move 1e5..1e7 mol into a phase and
+    back; the element's dissolved total is then the difference of two such numbers and returns wrong by their unit of
+    rounding (1e-12..1e-8 mol, either sign).  It happens with every step-size setting, for about 1 generated case in 5000,
+    and nothing in the input or in the warnings announces it.  The only observable handle: the discrepancy belongs to the
+    Newton path, not to the bookkeeping.  An element_balance discrepancy of at most EXCURSION_ABS mol is therefore
+    re-examined with other documented step sizes (KNOBS -step_size / -pe_step_size); if the same steps then complete and
+    every inventory closes, the case is excluded (counted); if it persists, or the second run cannot complete the step,
+    the violation stands.  Larger discrepancies, charge, negative amounts and missing entities are never re-examined."""
+    try:
+        return _check_case(case, ctx)
+    except Violation as v:
+        d = v.detail if isinstance(v.detail, dict) else None
+        if v.oracle != "element_balance" or d is None or not (d["abs"] <= EXCURSION_ABS):
+            raise
+        if case.get("knobs_default_step_size") or case.get("knobs_step_size"):
+            raise
+        need = d["cell"] // 10          # number of steps that must complete in the second run
+        for alt in ALT_STEP_SIZES:
+            c2 = dict(case)
+            c2["knobs_step_size"] = alt
+            try:
+                r2 = _check_case(c2, _Quiet(ctx))
+            except (Violation, Discard):
+                continue
+            if r2["steps_done"] >= need:
+                ctx.event(PATH_EXCUSE)
+                raise Discard(PATH_EXCUSE)
+        raise
+
+
+def _check_case(case, ctx):
     phases = phases_for(case["db"]) if case["db"] in G.DB else None
     res = []
 
@@ -293,7 +345,7 @@ def check_case(case, ctx):
     w = max([r["worst"] for r in res] or [0.0])
     if w > 1e-9:
         classes.append("residual>1e-9")
-    return {"nontrivial": nt, "classes": classes}
+    return {"nontrivial": nt, "classes": classes, "steps_done": done}
 
 
 def run(ctx):
